@@ -268,6 +268,37 @@ theorem ordinary_transfers_unaffected (env : Env) (cfg : Token.Cfg) (w : World T
     · rw [hookLogs_no_target logs _ (fun l hl => hookTarget_not_to_module (hlogs l hl))]
       rfl
 
+/-! ## the executable monitors hold on the model's transitions -/
+
+/-- the monitors `C14 msg_gate`, `receiver_blocked`, `third_party_send_disabled` evaluated on a
+successful transition of the model are true -/
+theorem msg_gate_monitors (env : Env) (cfg : Token.Cfg) (O : Oracle Token.TState) (w w' : World Token.TState) (op : Op) (r : Resp)
+    (h : step env O w op = .ok (w', r)) (ans : List Ans) (hon cl : Bool) (lk : List (Addr × Denom × String × String))
+    (prev : Option (DOp × Bool × Resp × World Token.TState × Bool)) :
+    let t : Tr := { env := env, cfg := cfg, pre := w, op := .k op, ok := true, resp := r, post := w', answers := ans,
+                    honest := hon, lookups := lk, clean := cl, prev := prev }
+    c14_msgGate t = true ∧ c14_receiverBlocked t = true ∧ c14_thirdPartySendDisabled t = true := by
+  intro t
+  by_cases hc : IsConv op
+  · obtain ⟨g1, p, snd, rcv, hp, hpp, g2, g3, g4⟩ := conv_ok_gate hc h
+    have hic : isConvert (.k op) = true := by
+      cases op <;> first | rfl | exact absurd hc id
+    refine ⟨?_, ?_, ?_⟩
+    · simp only [c14_msgGate, t, hic, if_true, hp, g1, g2, Bool.not_true, Bool.false_or, Bool.and_self]
+    · simp only [c14_receiverBlocked, t, hpp, g3, Bool.not_true, Bool.false_or, Bool.not_false]
+    · simp only [c14_thirdPartySendDisabled, t, hpp, hp, Bool.not_true, Bool.false_or]
+      rcases g4 with e | e
+      · simp [e]
+      · simp [e]
+  · have hic : isConvert (.k op) = false := by
+      cases op <;> first | rfl | exact absurd trivial hc
+    have hcp : convParties op = none := by
+      cases op <;> first | rfl | exact absurd trivial hc
+    refine ⟨?_, ?_, ?_⟩
+    · simp only [c14_msgGate, t, hic]; rfl
+    · simp only [c14_receiverBlocked, t, hcp, hic]; rfl
+    · simp only [c14_thirdPartySendDisabled, t, hcp]
+
 /-! ## non-vacuity: the eight switch settings on a concrete world -/
 
 /-- `exWorld` with the coin `acoin` registered (contract `k0`) and 4 tokens minted to `u0`, then the
